@@ -42,33 +42,28 @@ Theorem C20_own_factors : forall fone fdiv fmul strict permit fp expd smax nlab 
 Proof. exact own_factors. Qed.
 Print Assumptions C20_own_factors.
 
-(* truncated recordings, both sort orders (after fix 7962d745 also the strict one): when at
-   least one volume is complete, the records kept by get_sorted_slice_indices are exactly the
-   records flagged by vol_is_full - on the recorded order (lax) resp. on the stage-1 sorted
-   order (strict) - as belonging to a complete volume; the indices are valid and distinct *)
+(* truncated recordings, both sort orders: when at least one volume is complete, the records kept
+   by get_sorted_slice_indices are exactly the records flagged by vol_is_full as belonging to a
+   complete volume - for the volume numbers of the order in question (vols_of: vol_numbers of the
+   recorded order for the lax order; key groups + repeats of the key-sorted records for the strict
+   order, after the S-C20b repair); the indices are valid and distinct *)
 Theorem C20_truncated_complete_only : forall (strict : bool) smax recs idx nv,
   sorted_slice_indices strict smax recs = Some idx ->
-  n_vols smax recs = Some nv -> (1 <= nv)%nat ->
-  exists full, vol_is_full (map sl (base_of strict recs)) smax = Some full /\
+  n_vols strict smax recs = Some nv -> (1 <= nv)%nat ->
+  exists vn full, vols_of strict smax (base_of strict recs) = Some (vn, full) /\
     Permutation (select dummy idx recs) (map fst (filter snd (combine (base_of strict recs) full))) /\
     NoDup idx /\ (forall i, In i idx -> (i < length recs)%nat).
 Proof. exact truncated_complete_only. Qed.
 Print Assumptions C20_truncated_complete_only.
 
-(* the hypothesis 1 <= nv is needed: with no complete volume the shape falls back to 3-D and
-   n_used = n_slices records of incomplete volumes are kept (finding S-C20c) *)
-Theorem C20_no_complete_volume_refuted :
-  exists strict smax recs idx,
-    sorted_slice_indices strict smax recs = Some idx /\ n_vols smax recs = Some 0%nat /\ idx = [0%nat].
-Proof.
-  exists true, 2, [mkRec [1;0] 1 0 0 0 0 [] []]. eexists.
-  split; [vm_compute; reflexivity|]. split; vm_compute; reflexivity.
-Qed.
-Print Assumptions C20_no_complete_volume_refuted.
+(* ... and with no complete volume at all the load is refused (S-C20c repaired) *)
+Theorem C20_no_volume_refused : forall fone fdiv fmul (strict : bool) permit fp expd smax nlab recs,
+  n_vols strict smax recs = Some O ->
+  exists e, load fone fdiv fmul strict permit fp expd smax nlab recs = Err e.
+Proof. exact no_volume_refused. Qed.
+Print Assumptions C20_no_volume_refused.
 
-(* vol_is_full's notion of a complete volume, spelled out: the flag of a record is true iff
-   every slice number 1..slice_max occurs in the record's volume, where slice s occupies
-   exactly the volumes 0 .. count(s)-1 (so the notion does not depend on the record order) *)
+(* vol_is_full's notion of a complete volume (default volume numbers), spelled out *)
 Theorem C20_vol_is_full_meaning : forall sn smax full,
   vol_is_full sn smax = Some full ->
   (forall s, In s sn -> 1 <= s <= smax) /\ length full = length sn /\
@@ -79,124 +74,66 @@ Theorem C20_vol_is_full_meaning : forall sn smax full,
 Proof. exact vol_is_full_meaning. Qed.
 Print Assumptions C20_vol_is_full_meaning.
 
-(* label level, strict order, positive part: if the stage-1 (key) order of the records is a
-   sequence of complete volumes (each with slices 1..slice_max in order; in key order a run
-   of records that agree on every key but the slice number - the least significant key - is
-   such a block) followed by at most one incomplete volume (distinct slice numbers, one
-   missing; T = [] for an untruncated recording), then the output is EXACTLY those complete
-   volumes, in key order, slice by slice: output volume k is the k-th group. *)
-Theorem C20_strict_complete_volumes : forall smax recs Gs T idx,
-  stage1 recs = concat Gs ++ T -> Gs <> [] -> 1 <= smax ->
-  Forall (complete_group smax) Gs ->
-  NoDup (map sl T) -> (forall s, In s (map sl T) -> 1 <= s <= smax) ->
-  (exists s0, 1 <= s0 <= smax /\ ~ In s0 (map sl T)) ->
-  sorted_slice_indices true smax recs = Some idx ->
-  select dummy idx recs = concat Gs.
-Proof. exact strict_complete_volumes. Qed.
-Print Assumptions C20_strict_complete_volumes.
-
-(* ... and that shape is DERIVED for a recording whose label groups are complete.  `keyed smax recs`
-   is a condition on the record list alone: every key tuple is slice number :: label keys (slice =
-   least significant sort key), all of one length, slice numbers within 1..slice_max, and every label
-   that occurs occurs with every slice number 1..slice_max.  Then the key-sorted list is the
-   concatenation of its label groups (`groups`: the maximal runs of equal label), each holding
-   slices 1..slice_max in order and one label only. *)
-Theorem C20_labelled_blocks : forall smax recs,
+(* LABEL LEVEL, strict order, FULL statement (no hypothesis on what is missing or where).
+   `keyed smax recs` is a condition on the record list alone: every key tuple is
+   slice number :: label keys (slice = least significant sort key), all of one length, slice
+   numbers within 1..slice_max.  Gs = the label groups of the key-sorted records (maximal runs
+   of one label; non-empty, labels pairwise different, slices strictly ascending).  Then the
+   strict order keeps EXACTLY the records of the complete groups (completeb: all of 1..slice_max
+   present; = slices are 1..slice_max in order, C20_completeb_spec), group after group in key
+   order, slice by slice. *)
+Theorem C20_strict_label_volumes : forall smax recs idx nv,
   keyed smax recs -> NoDup (map keys recs) ->
+  sorted_slice_indices true smax recs = Some idx -> n_vols true smax recs = Some nv -> (1 <= nv)%nat ->
   let Gs := groups (length (stage1 recs)) (stage1 recs) in
-  stage1 recs = concat Gs /\ Forall (complete_group smax) Gs /\ Forall one_label Gs.
-Proof. exact labelled_blocks. Qed.
-Print Assumptions C20_labelled_blocks.
+  select dummy idx recs = concat (filter (completeb smax) Gs) /\
+  stage1 recs = concat Gs /\ sep Gs /\ Forall slice_sorted Gs.
+Proof. exact strict_label_volumes. Qed.
+Print Assumptions C20_strict_label_volumes.
 
-(* so, speaking about `recs` only: the strict order returns exactly the volumes by label *)
-Theorem C20_strict_labelled_volumes : forall smax recs idx,
-  keyed smax recs -> NoDup (map keys recs) -> recs <> [] -> 1 <= smax ->
-  sorted_slice_indices true smax recs = Some idx ->
-  let Gs := groups (length (stage1 recs)) (stage1 recs) in
-  select dummy idx recs = concat Gs /\ Permutation (concat Gs) recs /\
-  Forall (complete_group smax) Gs /\ Forall one_label Gs.
-Proof. exact strict_labelled_volumes. Qed.
-Print Assumptions C20_strict_labelled_volumes.
+Theorem C20_completeb_spec : forall smax G, slice_sorted G -> (forall r, In r G -> 1 <= sl r <= smax) ->
+  completeb smax G = true <-> map sl G = zrange 1 smax.
+Proof. exact completeb_spec. Qed.
+Print Assumptions C20_completeb_spec.
 
-(* END TO END: a strict load of ANY permutation recs' of such a recording that succeeds returns
-   exactly the recording's volumes by label (Gs depends on recs only), every volume with slices
-   1..slice_max in order, every output slice showing its record's pixels with that record's own
-   slope and intercept, for both scaling conventions *)
+(* END TO END: a strict load of ANY permutation recs' of a recording that succeeds returns exactly
+   the recording's complete volumes by label (Gs and kept depend on recs only), slices in order,
+   every output slice showing its record's pixels with that record's own slope and intercept,
+   for both scaling conventions - truncated anywhere or not at all *)
 Theorem C20_strict_load_by_label : forall fone fdiv fmul permit fp expd smax nlab recs recs' idx o,
-  Permutation recs recs' -> keyed smax recs -> NoDup (map keys recs) -> recs <> [] -> 1 <= smax ->
+  Permutation recs recs' -> keyed smax recs -> NoDup (map keys recs) ->
   load fone fdiv fmul true permit fp expd smax nlab recs' = Ok (idx, o) ->
   let Gs := groups (length (stage1 recs)) (stage1 recs) in
-  Permutation (concat Gs) recs /\ Forall (complete_group smax) Gs /\ Forall one_label Gs /\
-  select dummy idx recs' = concat Gs /\
-  o_payload o = map pid (concat Gs) /\
-  o_slope o = map (slope_of fone fdiv fp) (concat Gs) /\
-  o_inter o = map (inter_of fdiv fmul fp) (concat Gs).
+  let kept := concat (filter (completeb smax) Gs) in
+  stage1 recs = concat Gs /\ sep Gs /\ Forall slice_sorted Gs /\
+  select dummy idx recs' = kept /\
+  o_payload o = map pid kept /\
+  o_slope o = map (slope_of fone fdiv fp) kept /\
+  o_inter o = map (inter_of fdiv fmul fp) kept.
 Proof. exact strict_load_by_label. Qed.
 Print Assumptions C20_strict_load_by_label.
 
-Example C20_keyed_nonvacuous :
-  let recs := [mkRec [2;2] 2 3 40 41 42 [2;2] [2]; mkRec [2;1] 2 1 20 21 22 [2;1] [1];
-               mkRec [1;2] 1 2 30 31 32 [1;2] [2]; mkRec [1;1] 1 0 10 11 12 [1;1] [1]] in
+(* the former S-C20b witness (2 slices; volumes A complete, B without slice 2, C complete) in a
+   shuffled record order: the kept records are A1 A2 C1 C2 *)
+Example C20_truncated_middle_volume :
+  let A1 := mkRec [1;0] 1 0 0 0 0 [] [] in let A2 := mkRec [2;0] 2 1 0 0 0 [] [] in
+  let B1 := mkRec [1;1] 1 2 0 0 0 [] [] in
+  let C1 := mkRec [1;2] 1 3 0 0 0 [] [] in let C2 := mkRec [2;2] 2 4 0 0 0 [] [] in
+  let recs := [C2; B1; A2; C1; A1] in
   keyed 2 recs /\ NoDup (map keys recs) /\
-  map (map pid) (groups (length (stage1 recs)) (stage1 recs)) = [[0; 1]; [2; 3]].
+  sorted_slice_indices true 2 recs = Some [4; 2; 3; 0]%nat /\ n_vols true 2 recs = Some 2%nat /\
+  map (map pid) (filter (completeb 2) (groups (length (stage1 recs)) (stage1 recs))) = [[0; 1]; [3; 4]].
 Proof.
-  cbv zeta. split; [|split; [repeat constructor; cbn; intuition discriminate|vm_compute; reflexivity]].
+  cbv zeta. split; [|split; [repeat constructor; cbn; intuition discriminate|repeat split; vm_compute; reflexivity]].
   split.
   - intros r H. cbn in H. repeat (destruct H as [<-|H]; [reflexivity|]). destruct H.
   - intros a b Ha Hb. cbn in Ha, Hb.
     repeat (destruct Ha as [<-|Ha]; [repeat (destruct Hb as [<-|Hb]; [reflexivity|]); destruct Hb|]). destruct Ha.
   - intros r H. cbn in H. repeat (destruct H as [<-|H]; [cbn; lia|]). destruct H.
-  - intros r s H Hs. assert (Es : s = 1 \/ s = 2) by lia. cbn in H.
-    repeat (destruct H as [<-|H];
-            [destruct Es as [->| ->];
-             solve [eexists; split; [left; reflexivity|split; reflexivity]
-                   |eexists; split; [right; left; reflexivity|split; reflexivity]
-                   |eexists; split; [right; right; left; reflexivity|split; reflexivity]
-                   |eexists; split; [right; right; right; left; reflexivity|split; reflexivity]]|]).
-    destruct H.
 Qed.
-
-(* Without that shape of the key order the label-level statement fails:
-   FULL label-level statement of "exactly the complete volumes are returned" for the strict
-   order: every output volume (n_slices consecutive output slices) consists of records that
-   agree on all keys but the slice number.  It is FALSE of the faithful model when a volume
-   that is not last in key order lacks a slice (finding S-C20b): vol_numbers pairs the
-   missing slice with the next volume's.  Witness: 2 slices, volumes A (complete),
-   B (slice 2 missing), C (complete); the two volumes returned are A and {B1, C2}. *)
-Theorem C20_strict_label_volumes_refuted :
-  exists recs smax idx r1 r2,
-    NoDup (map keys recs) /\ Forall (fun r => sl r = hd 0 (keys r)) recs /\
-    sorted_slice_indices true smax recs = Some idx /\ n_vols smax recs = Some 2%nat /\ n_slices recs = 2%nat /\
-    nth_error recs (nth 2 idx O) = Some r1 /\ nth_error recs (nth 3 idx O) = Some r2 /\
-    tl (keys r1) <> tl (keys r2).
-Proof.
-  exists [mkRec [1;0] 1 0 0 0 0 [] []; mkRec [2;0] 2 1 0 0 0 [] []; mkRec [1;1] 1 2 0 0 0 [] [];
-          mkRec [1;2] 1 3 0 0 0 [] []; mkRec [2;2] 2 4 0 0 0 [] []], 2.
-  eexists; eexists; eexists.
-  split; [repeat constructor; cbn; intuition discriminate|].
-  split; [repeat constructor|].
-  split; [vm_compute; reflexivity|].
-  split; [vm_compute; reflexivity|]. split; [vm_compute; reflexivity|].
-  split; [vm_compute; reflexivity|]. split; [vm_compute; reflexivity|].
-  cbn. discriminate.
-Qed.
-Print Assumptions C20_strict_label_volumes_refuted.
 
 (* non-vacuity: two volumes of two slices with distinct keys and different scale factors,
    recorded volume-major and slice-major-reversed; both loads succeed with the same result *)
-Example C20_strict_complete_volumes_nonvacuous :
-  let A1 := mkRec [1;0] 1 0 0 0 0 [] [] in let A2 := mkRec [2;0] 2 1 0 0 0 [] [] in
-  let B1 := mkRec [1;1] 1 2 0 0 0 [] [] in let B2 := mkRec [2;1] 2 3 0 0 0 [] [] in
-  let C1 := mkRec [1;2] 1 4 0 0 0 [] [] in
-  let recs := [C1; B2; A2; B1; A1] in
-  stage1 recs = concat [[A1; A2]; [B1; B2]] ++ [C1] /\ Forall (complete_group 2) [[A1; A2]; [B1; B2]] /\
-  NoDup (map sl [C1]) /\ ~ In 2 (map sl [C1]) /\
-  sorted_slice_indices true 2 recs = Some [4; 2; 3; 1]%nat.
-Proof.
-  cbv zeta. split; [vm_compute; reflexivity|]. split; [repeat constructor|].
-  split; [repeat constructor; cbn; tauto|]. split; [cbn; intuition discriminate|vm_compute; reflexivity].
-Qed.
-
 Example C20_nonvacuous :
   let recs := [mkRec [1;1] 1 0 10 11 12 [1;1] [1]; mkRec [2;1] 2 1 20 21 22 [2;1] [1];
                mkRec [1;2] 1 2 30 31 32 [1;2] [2]; mkRec [2;2] 2 3 40 41 42 [2;2] [2]] in
